@@ -69,11 +69,39 @@ def run(ctx):
             break
     ctx.rules.append("race: 2-6 threads call cancel_group_execution on one fresh bound context at once: exactly one true; it stays cancelled until reset(); sibling / isolated / parent contexts untouched")
     ctx.ties.append({"name": "ctx-race (oracle only)", "cases": nr, "disagreements": bad3})
+    # directed replay of the second refutation witness (cancel_misses_child_of_parentless_context_refuted): libtbb compiled under the prelude, delays injected before the accesses to the child's flag
+    import os
+    glib, err = ctx.build_lib("tbb", gated=True)
+    if err:
+        return ctx.broken("gated libtbb build", err)
+    rexe, err = ctx.build_driver("drv_ctxroot", libs=[glib], extra=["-include", os.path.join(vlib.VERIF, "harness", "prelude", "verif_atomic.h")], opt="-O1")
+    if err:
+        return ctx.broken("drv_ctxroot build", err)
+    rcases = [[ctx.seed * 10 + i, ctx.scale(8000, 60000), p] for i, p in enumerate([64, 160, 96])]
+    ctx.rules.append("ctx-root: a context is bound beneath a parent-less (isolated) context while that context is cancelled by another thread; libtbb runs under the atomic prelude and seeded delays are injected before "
+                     "every access to the child's my_cancellation_requested (this widens the window between bind_to_impl's load of the parent's flag and its store); 3 x 8000 rounds (thorough: 3 x 60000): "
+                     "once cancel_group_execution has returned and the child is bound beneath the cancelled context, the child is cancelled")
+
+    def root_oracle(c, toks):
+        if not toks or toks[0].startswith("CRASH") or toks[-1] == "HANG" or len(toks) < 4:
+            return ("ctx-root-hang-or-crash", "bind beneath a parent-less context racing with its cancellation: " + " ".join(toks)[-80:])
+        if toks[1] != "0":
+            return ("bind-beneath-parentless-context-misses-cancel", "isolated context `root`; thread A binds a child context beneath it (parallel_for with an explicit bound context inside a body running under `root`), "
+                    "thread B calls root.cancel_group_execution(); delays of up to 120 us injected before accesses to the child's flag (probability %d/256, seed %d): in %s of %s rounds the cancel call has returned, "
+                    "the child is bound beneath `root` and child.is_group_execution_cancelled() is false" % (c[2], c[0], toks[1], toks[3]))
+        return None
+    vlib.oracle_tie(ctx, "ctx-root", rexe, [], rcases, root_oracle, bucket=lambda c: "ctx-root perturb=%d" % c[2], timeout=1500)
     ctx.rules.append("rand: 2-4 threads building nested context chains beneath a common root while one of them cancels the root or a sibling subtree; "
                      "verdict at quiescence: level-1 contexts beneath a cancelled root are cancelled, an unrelated isolated context never is")
 
 
 def replay(ctx, rep):
+    if rep.get("tie") == "ctx-root":
+        import os
+        glib, err = ctx.build_lib("tbb", gated=True)
+        rexe, err = ctx.build_driver("drv_ctxroot", libs=[glib], extra=["-include", os.path.join(vlib.VERIF, "harness", "prelude", "verif_atomic.h")], opt="-O1")
+        print(ctx.run_driver(rexe, [], [rep["case"]], timeout=1500))
+        return
     lib, err = ctx.build_lib("tbb")
     exe, err = ctx.build_driver("drv_ctx", libs=[lib], opt="-O2")
     rc, lines, err = ctx.run_driver(exe, rep["args"], timeout=120)
